@@ -230,19 +230,19 @@ theorem TgRel.mono {β' : Inj N} (hle : β.le β') {tg tg' : Target N} (h : TgRe
 
 /-- a target that may be stored to when the names in `D` are dead -/
 def TargetOK (D : List DName) : Target N → Prop
-  | .var n => DName.ref n ∉ D
+  | .var n => DName.ref n ∉ D ∧ DName.wat n ∉ D
   | .slot _ _ => True
 
 theorem storeTarget_param (hc : CallOK Q cx call) (hρ : OracleFlat ρ) (k : Nat) {D : List DName} {env env' : Env N}
-    (he : EnvRel β D env.locals env'.locals) {tg tg' : Target N} (ht : TgRel β tg tg') (htg : TargetOK D tg)
+    (he : EnvRel cx β D env.locals env'.locals) {tg tg' : Target N} (ht : TgRel β tg tg') (htg : TargetOK D tg)
     {v v' : Val N} (hv : VRel β v v') {σ σ' : State N} (h : SRel Q cx β σ σ') :
     RRel Q cx β AEq (storeTarget call ρ k env tg v σ) (storeTarget call ρ k env' tg' v' σ') := by
   cases tg <;> cases tg' <;> simp only [TgRel] at ht <;> simp only [storeTarget]
-  · subst ht; exact RRel.ok (A := AEq) rfl (h.assignVar he htg hv)
+  · subst ht; exact RRel.ok (A := AEq) rfl (h.assignVar he htg.1 htg.2 hv)
   · exact setIndexVal_param hc hρ _ ht.1 ht.2 hv h
 
 theorem storeTargets_param (hc : CallOK Q cx call) (hρ : OracleFlat ρ) (k : Nat) {D : List DName} {env env' : Env N}
-    (he : EnvRel β D env.locals env'.locals) {tgs tgs' : List (Target N)} (ht : Forall2 (TgRel β) tgs tgs')
+    (he : EnvRel cx β D env.locals env'.locals) {tgs tgs' : List (Target N)} (ht : Forall2 (TgRel β) tgs tgs')
     (htg : ∀ tg ∈ tgs, TargetOK D tg) {vs vs' : List (Val N)} (hv : VsRel β vs vs') {σ σ' : State N}
     (h : SRel Q cx β σ σ') :
     RRel Q cx β AEq (storeTargets call ρ k env tgs vs σ) (storeTargets call ρ k env' tgs' vs' σ') := by
